@@ -109,6 +109,15 @@ impl RemoteClient {
         }
     }
 
+    /// Internal counters of the connection, if active (verification builds only).
+    #[cfg(feature = "uflow_verif")]
+    pub fn verif_stats(&self) -> Option<crate::verif::VerifStats> {
+        match self.state {
+            State::Active(ref state) => Some(state.half_connection.verif_stats()),
+            _ => None,
+        }
+    }
+
     /// Returns the current estimate of the round-trip time (RTT), in seconds.
     ///
     /// If the RTT has not yet been computed, or if the connection is not active, `None` is
